@@ -24,6 +24,7 @@ func init() {
 
 func runC08(c *core.Ctx) {
 	checkStateStoreKeyPrefixes(c)
+	checkNodeStorePositions(c)
 	checkSubmitBlockRoot(c, "C08.block-root-bound", true)
 	pkM := "merkle"
 	hl := eng.Obj(c, pkM, "HashLeaf")
